@@ -80,6 +80,13 @@ def injections(t):
                 continue
             t2 = T.replace_at(t, path, f)
             out.append((t2, desc))
+    # = / != applied to a literal or operator result of another sort than the (definite) other side
+    for path, child, sib in T.eq_sibling_positions(t):
+        for f in FILLERS:
+            d = T.definite(f)
+            if len(d) != 1 or not (d <= T.PRIMITIVE) or (d & sib) or f == child:
+                continue
+            out.append((T.replace_at(t, path, f), f'operand of =/!= whose other side is {sorted(sib)[0]}'))
     return out
 
 
@@ -140,7 +147,7 @@ def check_term(t, r):
         if text is None:
             r.notes['injection not expressible in the grammar'] += 1
             continue
-        if not T.definite_clashes(t2):
+        if not T.definite_clashes(t2) and not T.eq_clashes(t2):
             problems.append(('HARNESS-ERROR injected clash not confirmed by the reference analysis', f'{text}'))
             continue
         r.count('evaluations')
@@ -215,5 +222,5 @@ def describe(tier):
         'rule': f"base: every accepted Bool term with <= {b['nodes']} nodes of the C04 universe for schemas {list(b['schemas'])}; for every argument position (operands of all operators, function arguments, range bounds, set elements, quantifier domains and bodies, indices) every filler of a 15-term menu (literals of each primitive sort, operator / function / quantifier results of each sort, a set, a range) whose own type is disjoint from the parameter type is injected - one clash per text, confirmed by the reference definite-clash analysis - and parsed as expression, predicate and property; plus reuse of each reference at a disjoint type (both conjunct orders) through the predicate, condition and property parsers; plus non-boolean roots. evaluations = injected texts; every one must raise TypeError.",
         'bounds': {'nodes': b['nodes']},
         'exhaustive': True,
-        'assumptions': ['transitive clashes through = unification and heterogeneous sets are not claimed and not generated'],
+        'assumptions': ['= / != clashes are generated only between two operands that each certainly have one base type (literal or operator/function result); transitive clashes through references and heterogeneous sets are not claimed and not generated'],
     }
